@@ -254,6 +254,11 @@ def coord_cases(rng, tier):
             for i in range(w): cand |= {1 << i, (1 << i) - 1, (1 << i) + 1, m ^ (1 << i)}
             if w <= 12 and tier != 'quick': cand |= set(range(1 << w))
             elif w <= 10: cand |= set(range(1 << w))
+            exhaustive = w in (17, 18) and tier != 'quick'     # the 1/10-minute fields of types 17 and 27: every raw value
+            if exhaustive:
+                for v in range(1 << w):
+                    vals = gen.rand_values(rng, fl, 'random'); vals['type'] = t; vals[name] = v
+                    out.append(M(gen.pack(gen.bits_of(fl, vals))))
             n_rand = scale(tier, 800, 30000) if w > 12 else 0
             hi = rng.getrandbits(w) & ~0xfff
             cand |= {(hi | i) & m for i in range(0, 4096, scale(tier, 16, 1))} if w > 12 else set()
@@ -270,6 +275,31 @@ def coord_cases(rng, tier):
                         vals = gen.rand_values(rng, fl, 'random'); vals['type'] = t; vals[name] = v; vals[other] = sv
                         out.append(M(gen.pack(gen.bits_of(fl, vals))))
     return with_truncations(rng, out)
+
+def scaling_ranges(rng, tier):
+    """C10/C11: the public scaling functions of messages::navigation over whole ranges of raw values,
+    compared through digests.  quick: all 2^16 speed and course codes, longitude / latitude around
+    zero, the sentinels, the field extremes and 64 random blocks; thorough: every value of the 28-bit
+    and 27-bit two's-complement domains."""
+    from . import sweep
+    B = 1 << 16
+    out = [sweep.range_case('sog', 0, B), sweep.range_case('cog', 0, B)]
+    if tier == 'quick':
+        for which, w, sentinel in (('lon', 28, 108600000), ('lat', 27, 54600000)):
+            half = 1 << (w - 1)
+            starts = [-8 * B, -half, half - B, sentinel - B // 2, -sentinel - B // 2, half, -half - B, (1 << 31) - B, -(1 << 31)]
+            starts += [rng.randrange(-half, half - B) for _ in range(64)]
+            for s0 in starts:
+                out.append(sweep.range_case(which, s0, 16 * B if s0 == -8 * B else B))
+    else:
+        blk = 1 << 20
+        for which, w in (('lon', 28), ('lat', 27)):
+            half = 1 << (w - 1)
+            for s0 in range(-half, half, blk):
+                out.append(sweep.range_case(which, s0, blk))
+            out += [sweep.range_case(which, half, blk), sweep.range_case(which, -half - blk, blk),
+                    sweep.range_case(which, (1 << 31) - blk, blk), sweep.range_case(which, -(1 << 31), blk)]
+    return out
 
 def binary_cases(rng, tier):
     out = []
